@@ -174,6 +174,15 @@ func (m *MW) checkBalancesFaulted(mint, when string, issued, redeemed map[string
 	} else if total != ti-tr {
 		W.Book.Violate("C16.total_wrong", when+":faulted", "TotalBalance reports %d, reported issued-redeemed is %d", total, ti-tr)
 	}
+	// ... and the reported balance is covered by what the mint really holds: every sat of balance came in
+	// over Lightning and has not left again (signatures stored for a request that was answered with an
+	// error and then issued once more on the retry would show up here)
+	led := W.LN.ledger(mint)
+	lhs := new(big.Int).Mul(new(big.Int).SetUint64(total), big.NewInt(1000))
+	lhs.Add(lhs, new(big.Int).SetUint64(led.OutflowMsat))
+	if tr <= ti && lhs.Cmp(new(big.Int).SetUint64(led.InflowMsat)) > 0 {
+		W.Book.Violate("C16.balance_uncovered", when+":faulted", "TotalBalance reports %d sat but the mint received %d msat and paid out %d msat over Lightning: more is reported as issued than was ever handed out", total, led.InflowMsat, led.OutflowMsat)
+	}
 	m.rc.S.Probe("c16_balances_compared_faulted")
 	m.rc.Nontrivial = true
 }
